@@ -11,6 +11,11 @@ cells equal (as int), float cells within half a unit of the last digit kept by
 float_format, comment dict contains the caller's (key, value) pairs verbatim and
 nrow / ncol.
 Each case works in its own tempfile.mkdtemp() directory which is removed at once.
+Size ladder (same oracle): generated frames (tie-rich dyadic floats + a few decimal ones,
+integers with a value beyond 2**53 in row 0, text cycling through the quoting alphabet)
+with the row count on the ladder 7..1025 (thorough ..10001) and the column count 1..40,
+in every storage mode; the same frames carrying a non-default index (never written) and
+all-float frames built from one 2-D block in another memory layout / dtype.
 """
 import itertools, os, re, shutil, tempfile, zipfile
 from fractions import Fraction
@@ -29,7 +34,14 @@ RULE = ("every storage mode {plain x.csv; compress=True under x.csv / x.zip / x;
         "':' / '#' / ',', or is stored compressed / in an archive. Cases are distinct by "
         "construction (nested enumeration of coordinate vectors; combinations that would "
         "repeat a case - non-unique names, second text value with one row - are skipped, "
-        "not counted).")
+        "not counted). Size ladder: generated frames (column j of type f,i,t in turn; float cell "
+        "((7i+3j) mod 23)/4 - 2.5 + j with every 11th row a decimal value, integer cell ((13i+5j) mod 1001) - 500 "
+        "with 2**53+1 or -2**62 in row 0, text cell = quoting alphabet[(i+j) mod 6] (+ a counter)) with "
+        "rows on LADDER x 3 columns x 2 float formats, columns 1..40 x rows {2, 33}, wide frames (17 / 40 "
+        "columns) x rows around the powers of two, each in all 5 storage modes; index variants {RangeIndex "
+        "with start/step, DatetimeIndex, text labels, MultiIndex} (write_index=False: the frame must come "
+        "back the same) and layout variants of all-float frames {2-D block C / Fortran / float32 / strided "
+        "view, read-only block} x 4 shapes x 5 modes, judged cell by cell by the same oracle.")
 ASSUMPTIONS = [
     "missing values (NaN, None, empty text) are outside: the statement speaks of non-empty text and numeric values",
     "strings pandas itself re-types on reading ('NA', '1e3', 'True', digits-only text) are outside the stated text alphabet; the header value '9' is kept because comments come back as strings",
@@ -38,6 +50,7 @@ ASSUMPTIONS = [
     "float tolerance = half a unit of the last digit of float_format (for %e: of the last mantissa digit at the decade of the value) x (1 + 1e-9) + 1e-12 |x| for decimal parsing noise",
     "time_generated, author, source_file, system information lines of the header are never compared",
     "the frame index is not written (write_index=False, the default); gzip input is not produced by write_csv and is not covered",
+    "size ladder: the generated column names stay inside the stated alphabet (letters, digits, space, dash, underscore; no leading/trailing blank, never digits only); the float32 layout holds dyadic values only (exactly representable), so the float tolerance is unchanged; a layout / index that write_csv rejects with a Python exception would be reported (pandas frames of any layout are valid input)",
 ]
 TECHNIQUE = ("bounded exhaustive enumeration (full core x deviation-bounded rest) of "
              "write_csv -> read_csv on the real implementation, differential oracle against the input frame")
@@ -65,6 +78,12 @@ INTS = [3, 0, -7, 2 ** 53 + 1, -2 ** 62]
 INT_REST = [10, -20]
 STEMS = ["x", "my file", "d-1_b", "d.v2"]
 SOURCE = Path(__file__)
+LADDER = [7, 8, 9, 15, 16, 17, 31, 32, 33, 63, 64, 65, 100, 127, 128, 129, 255, 256, 257, 500, 501,
+          511, 512, 513, 1000, 1001, 1023, 1024, 1025]
+LADDER_X = [2047, 2048, 2049, 4095, 4096, 4097, 10001]
+LADDER_POW = [63, 64, 65, 255, 256, 257, 1023, 1024, 1025]
+INDEX_KINDS = ["shifted", "datetime", "labels", "multi"]
+BUILDS = ["block-C", "block-F", "block-f32", "block-strided", "block-readonly"]
 
 
 def alphabets(seed):
@@ -79,13 +98,17 @@ def bound_text(tier, seed):
     al = alphabets(seed)
     ex = "seed extras: name %r, text %r, comment value %r, float %r" % (
         al["names"][-1], al["texts"][-1], al["cvals"][-1], al["floats"][-1])
+    lad = ("; size ladder: rows %s x 3 columns x 2 formats, columns 1..40 x rows {2,33}, %s columns x rows %s, "
+           "index kinds %s x rows {9,64,257,1001}, float-block layouts %s x shapes {8x4,65x7,257x3,1000x2}, all x 5 modes" % (
+               LADDER if tier == "quick" else LADDER + LADDER_X, [17, 40],
+               LADDER_POW if tier == "quick" else LADDER + LADDER_X[:6], INDEX_KINDS, BUILDS))
     if tier == "quick":
         return ("core 5 modes x 7 layouts x 7 text values x 7 comment values crossed fully, each with "
                 "<= 1 deviation of the rest; <= 2 deviations completed for 5 modes x layout f,i,t; "
-                "empty comment dict for every mode x layout; " + ex)
+                "empty comment dict for every mode x layout; " + ex + lad)
     return ("core 5 modes x 7 layouts x 7 text values x 7 comment values crossed fully, each with "
             "<= 2 deviations of the rest; <= 3 deviations completed for 5 modes x layout f,i,t; "
-            "empty comment dict for every mode x layout; " + ex)
+            "empty comment dict for every mode x layout; " + ex + lad)
 
 
 # --------------------------------------------------------------------------- space
@@ -182,6 +205,19 @@ def units(tier, seed):
     for mode in MODES:
         us.append({"kind": "bigrows", "mode": mode, "seed": seed, "ns": [5001, 12007] if quick else [5001, 12007, 70001]})
     us.append({"kind": "siblings", "seed": seed})
+    # size ladder
+    lad = LADDER if quick else LADDER + LADDER_X
+    groups = [[n for n in lad if n <= 129], [n for n in lad if 129 < n <= 513], [n for n in lad if 513 < n <= 1025]] + \
+        [[n] for n in lad if n > 1025]
+    wide = LADDER_POW if quick else LADDER + LADDER_X[:6]
+    for mode in MODES:
+        for g in groups:
+            us.append({"kind": "ladder", "part": "rows", "mode": mode, "seed": seed, "ns": g})
+        us.append({"kind": "ladder", "part": "cols", "mode": mode, "seed": seed})
+        for g in ([wide] if quick else [wide[i::4] for i in range(4)]):
+            us.append({"kind": "ladder", "part": "wide", "mode": mode, "seed": seed, "ns": g})
+        us.append({"kind": "ladder", "part": "index", "mode": mode, "seed": seed})
+        us.append({"kind": "ladder", "part": "layout", "mode": mode, "seed": seed})
     return us
 
 
@@ -205,7 +241,13 @@ def half_unit(x, ff):
 
 
 def label(value, values, labels):
-    return labels[values.index(value)] if value in values else "extra"
+    if value in values:
+        return labels[values.index(value)]
+    for v, lab in zip(values, labels):
+        # generated ladder text: an alphabet member followed by a counter
+        if value.startswith(v + " ") and value[len(v) + 1:].isdigit():
+            return lab
+    return "extra"
 
 
 def nontrivial(case):
@@ -217,8 +259,93 @@ def nontrivial(case):
     return any(re.search("[:#,]", v) for _, v in case["comment"])
 
 
+def ladder_name(j):
+    if j < len(NAMES):
+        return NAMES[j]
+    return ["n%02d", "K %02d", "m-%02d", "_%02d", "%02dz", "Q_%02d x"][j % 6] % j
+
+
+def ladder_cols(spec):
+    """generated frame of the size ladder: spec = {"nrow", "ncol", "types": "mixed"|"float", "seed"}"""
+    n, k, s = spec["nrow"], spec["ncol"], spec.get("seed", 0)
+    dyadic_only = spec.get("build", "cols") != "cols"
+    cols = []
+    for j in range(k):
+        typ = "f" if spec.get("types", "mixed") == "float" else "fit"[j % 3]
+        if typ == "f":
+            vals = [((i * 7 + 3 * j + s) % 23) * 0.25 - 2.5 + j for i in range(n)]
+            if not dyadic_only:
+                for i in range(5, n, 11):
+                    vals[i] = ((i + j) % 7) / 10. - 0.3 + 1000. * (i % 3)
+        elif typ == "i":
+            vals = [((i * 13 + 5 * j + s) % 1001) - 500 for i in range(n)]
+            vals[0] = 2 ** 53 + 1 if j % 2 == 0 else -2 ** 62
+        else:
+            vals = [TEXTS[(i + j) % 6] + ("" if i < 6 else " %d" % ((i + s) % 17)) for i in range(n)]
+        cols.append({"name": ladder_name(j), "type": typ, "values": vals})
+    return cols
+
+
+def ladder_index(pd, kind, n):
+    if kind == "shifted":
+        return pd.RangeIndex(5, 5 + 3 * n, 3)
+    if kind == "datetime":
+        return pd.date_range("2001-02-03", periods=n, freq="h")
+    if kind == "labels":
+        return pd.Index(["row, %d" % (n - i) for i in range(n)])
+    if kind == "multi":
+        return pd.MultiIndex.from_arrays([[i // 2 for i in range(n)], ["ab"[i % 2] for i in range(n)]], names=["g", "h"])
+    raise ValueError(kind)
+
+
+def ladder_frame(pd, cols, spec):
+    """the data frame of a ladder case in the requested build (memory layout / dtype) and index"""
+    import numpy as np
+    build = spec.get("build", "cols")
+    names = [c["name"] for c in cols]
+    if build == "cols":
+        df = pd.DataFrame({c["name"]: c["values"] for c in cols})
+    else:
+        block = np.array([c["values"] for c in cols], dtype=np.float64).T.copy()      # (nrow, ncol) C order
+        if build == "block-F":
+            block = np.asfortranarray(block)
+        elif build == "block-f32":
+            b32 = block.astype(np.float32)
+            if not np.array_equal(b32.astype(np.float64), block):
+                raise RuntimeError("harness: float32 block not exact")
+            block = b32
+        elif build == "block-strided":
+            big = np.full((2 * block.shape[0] + 1, 2 * block.shape[1] + 1), -777.25)
+            big[1::2, 1::2] = block
+            block = big[1::2, 1::2]
+        elif build == "block-readonly":
+            block.setflags(write=False)
+        elif build != "block-C":
+            raise ValueError(build)
+        df = pd.DataFrame(block, columns=names, copy=False)
+    if spec.get("index", "default") != "default":
+        df.index = ladder_index(pd, spec["index"], len(df))
+    return df
+
+
+def ladder_suffix(case):
+    """key suffix of a ladder case: names the variant so that a defect of one variant has its own key"""
+    if "ladder" not in case:
+        return ""
+    sp = case["ladder"]
+    sfx = ":ladder"
+    if sp.get("index", "default") != "default":
+        sfx += ":index=%s" % sp["index"]
+    if sp.get("build", "cols") != "cols":
+        sfx += ":layout=%s" % sp["build"]
+    return sfx
+
+
 def expand_big(case):
-    """size class: a case may carry "bigrows": n instead of explicit values (kept small for the replay file)"""
+    """size class: a case may carry "bigrows": n (or "ladder": spec) instead of explicit values (kept small
+    for the replay file)"""
+    if "ladder" in case:
+        return dict(case, cols=ladder_cols(case["ladder"]))
     if "bigrows" not in case:
         return case
     n = case["bigrows"]
@@ -237,14 +364,21 @@ def check_case(ctx, csv, pd, case):
     nrow = len(cols[0]["values"])
     comment = {k: v for k, v in case["comment"]}
     nt = nontrivial(case)
-    if "bigrows" in case_in:
+    sfx = ladder_suffix(case_in)
+    if "bigrows" in case_in or "ladder" in case_in:
         # report the compact form
         case = case_in
+
+    def viol(key, *a, **k):
+        ctx.violation(key + sfx, *a, **k)
     ctx.count("mode." + mode)
     ctx.count("format." + case["ff"])
     tmp = tempfile.mkdtemp(prefix="verif-c09-")
     try:
-        df = pd.DataFrame({c["name"]: c["values"] for c in cols})
+        if "ladder" in case_in:
+            df = ladder_frame(pd, cols, case_in["ladder"])
+        else:
+            df = pd.DataFrame({c["name"]: c["values"] for c in cols})
         if list(df.columns) != [c["name"] for c in cols] or df.shape != (nrow, len(cols)):
             raise RuntimeError("harness: frame not built as specified")
         stem = case["stem"]
@@ -270,7 +404,7 @@ def check_case(ctx, csv, pd, case):
                 csv.write_csv(df, fname, comment, SOURCE, compress=(mode != "plain"), **kw)
         except Exception as e:
             ctx.case(nt)
-            ctx.violation("%s:write-raised:%s" % (mk, type(e).__name__), case,
+            viol("%s:write-raised:%s" % (mk, type(e).__name__), case,
                           "write_csv raised %r" % (e,))
             return
         # ---- read
@@ -282,7 +416,7 @@ def check_case(ctx, csv, pd, case):
                 data, com = csv.read_csv(fname)
         except Exception as e:
             ctx.case(nt)
-            ctx.violation("%s:unreadable" % mk, case,
+            viol("%s:unreadable" % mk, case,
                           "file written by write_csv(%r, compress=%r) cannot be read back under the same name: "
                           "read_csv raised %s: %s (directory holds %s)" % (
                               str(fname).replace(tmp, "<tmp>"), mode not in ("plain", "archive"),
@@ -297,7 +431,7 @@ def check_case(ctx, csv, pd, case):
         obs_com = dict(com)
     except Exception as e:
         ctx.case(nt)
-        ctx.violation("%s:result-type" % mk, case, "read_csv returned (%s, %s): %r" % (type(data), type(com), e))
+        viol("%s:result-type" % mk, case, "read_csv returned (%s, %s): %r" % (type(data), type(com), e))
         return
     ctx.case(nt, outcome=repr((obs_cols, obs_vals, [(k, obs_com.get(k)) for k in sorted(comment)],
                                obs_com.get("nrow"), obs_com.get("ncol"))))
@@ -305,10 +439,10 @@ def check_case(ctx, csv, pd, case):
     # ---- frame
     exp_cols = [c["name"] for c in cols]
     if obs_cols != exp_cols:
-        ctx.violation("%s:colnames" % mk, case, "column names %r came back as %r" % (exp_cols, obs_cols),
+        viol("%s:colnames" % mk, case, "column names %r came back as %r" % (exp_cols, obs_cols),
                       observed=obs_cols, expected=exp_cols)
     elif len(data) != nrow:
-        ctx.violation("%s:nrow" % mk, case, "%d rows written, %d read" % (nrow, len(data)),
+        viol("%s:nrow" % mk, case, "%d rows written, %d read" % (nrow, len(data)),
                       observed=len(data), expected=nrow)
     else:
         for c, ov in zip(cols, obs_vals):
@@ -316,7 +450,7 @@ def check_case(ctx, csv, pd, case):
                 if c["type"] == "t":
                     ctx.count("cell.text")
                     if not (isinstance(o, str) and o == x):
-                        ctx.violation("%s:text:%s" % (mk, label(x, TEXTS, TEXT_LABEL)), case,
+                        viol("%s:text:%s" % (mk, label(x, TEXTS, TEXT_LABEL)), case,
                                       "text cell %r of column %r row %d came back as %r" % (x, c["name"], r, o),
                                       observed=repr(o), expected=x)
                 elif c["type"] == "i":
@@ -324,7 +458,7 @@ def check_case(ctx, csv, pd, case):
                     # exact comparison (python compares int and float exactly)
                     ok = isinstance(o, (int, float)) and not isinstance(o, bool) and o == x
                     if not ok:
-                        ctx.violation("%s:int" % mk, case,
+                        viol("%s:int" % mk, case,
                                       "integer cell %d of column %r row %d came back as %r" % (x, c["name"], r, o),
                                       observed=repr(o), expected=x)
                 else:
@@ -339,7 +473,7 @@ def check_case(ctx, csv, pd, case):
                     if hu * 1000 > abs(Fraction(x)) > 0:
                         ctx.count("cell.float.below_format_resolution")
                     if not ok:
-                        ctx.violation("%s:float:%s" % (mk, case["ff"]), case,
+                        viol("%s:float:%s" % (mk, case["ff"]), case,
                                       "float cell %r of column %r row %d written with %s came back as %r "
                                       "(allowed difference %.3g)" % (x, c["name"], r, case["ff"], o, float(hu)),
                                       observed=repr(o), expected=x)
@@ -348,16 +482,16 @@ def check_case(ctx, csv, pd, case):
         ctx.count("comment.checked")
         lab = label(v, CVALS, CVAL_LABEL)
         if k not in obs_com:
-            ctx.violation("%s:comment:missing:%s" % (mk, lab), case,
+            viol("%s:comment:missing:%s" % (mk, lab), case,
                           "comment %r : %r is not in the returned comment dict (keys %s)" % (
                               k, v, sorted(obs_com)), observed=sorted(obs_com), expected=k)
         elif obs_com[k] != v:
-            ctx.violation("%s:comment:value:%s" % (mk, lab), case,
+            viol("%s:comment:value:%s" % (mk, lab), case,
                           "comment %r written as %r came back as %r" % (k, v, obs_com[k]),
                           observed=repr(obs_com[k]), expected=v)
     for k, n in (("nrow", nrow), ("ncol", len(cols))):
         if k not in obs_com or str(obs_com[k]).strip() != str(n):
-            ctx.violation("%s:comment:%s" % (mk, k), case,
+            viol("%s:comment:%s" % (mk, k), case,
                           "%s = %d expected in the comment dict, got %r" % (k, n, obs_com.get(k)),
                           observed=repr(obs_com.get(k)), expected=n)
 
@@ -403,6 +537,14 @@ def run_unit(unit, ctx):
                     ctx.count("archive_with_siblings")
                     check_case(ctx, csv, pd, case)
         return
+    if unit["kind"] == "ladder":
+        for case in ladder_cases(unit, al):
+            if first:
+                ctx.case(False, sample=case, n=0)
+                first = False
+            ctx.count("ladder." + unit["part"])
+            check_case(ctx, csv, pd, case)
+        return
     mode, layout, ti = unit["mode"], LAYOUTS[unit["layout"]], unit["text"]
     coords = rest_coords(layout, al)
     part, parts = unit.get("part", 0), unit.get("parts", 1)
@@ -419,6 +561,36 @@ def run_unit(unit, ctx):
                 ctx.case(False, sample=case, n=0)
                 first = False
             check_case(ctx, csv, pd, case)
+
+
+def ladder_cases(unit, al):
+    mode, part, seed = unit["mode"], unit["part"], unit["seed"]
+
+    def mk(spec, ff, ci=0, stem="x"):
+        return {"mode": mode, "stem": stem, "ladder": dict(spec, seed=seed), "comment": [[KEYS[0], al["cvals"][ci]]],
+                "ff": ff, "sysinfo": True, "author": None}
+    if part == "rows":
+        for n in unit["ns"]:
+            for ff in (FORMATS[0], FORMATS[2]):
+                yield mk({"nrow": n, "ncol": 3}, ff)
+    elif part == "cols":
+        for k in range(1, 41):
+            for n in (2, 33):
+                yield mk({"nrow": n, "ncol": k}, FORMATS[k % 3], ci=k % len(al["cvals"]), stem=STEMS[k % len(STEMS)])
+    elif part == "wide":
+        for n in unit["ns"]:
+            for k in (17, 40):
+                yield mk({"nrow": n, "ncol": k}, FORMATS[0] if k == 17 else FORMATS[2])
+    elif part == "index":
+        for kind in INDEX_KINDS:
+            for n in (9, 64, 257, 1001):
+                yield mk({"nrow": n, "ncol": 3, "index": kind}, FORMATS[0])
+    elif part == "layout":
+        for build in BUILDS:
+            for n, k in ((8, 4), (65, 7), (257, 3), (1000, 2)):
+                yield mk({"nrow": n, "ncol": k, "types": "float", "build": build}, FORMATS[(n + k) % 3])
+    else:
+        raise ValueError(part)
 
 
 def replay(case):
